@@ -52,7 +52,7 @@ def _rates(c):
             {"tpr": tp + fn, "tnr": tn + fp, "ppv": fp + tp, "npv": tn + fn})
 
 
-def body_update(ctx, N, burn, sub, round_val, tracked):
+def body_update(ctx, N, burn, sub, round_val, tracked, prefix=()):
     cfg = {"burn_in": burn, "subsample": sub, "rates_tracked": list(tracked), "round_val": round_val}
     with DRIVERS["LinearFourRates"](ctx, **cfg) as drv:
         d = drv.det
@@ -69,7 +69,10 @@ def body_update(ctx, N, burn, sub, round_val, tracked):
                 R = {r: 0.5 for r in RATES}
                 since, first_warning, state = 0, None, None
                 ctx.witness("after-drift")
-            yt, yp = drv.fresh_input(i)
+            if i < len(prefix):
+                yt, yp = prefix[i]  # a fixed warm-up (reaches deeper cache states with few paths)
+            else:
+                yt, yp = drv.fresh_input(i)
             t, p = int(yt), int(yp)  # solver-driven case split on the label values
             ncalls = len(drv.sim_calls)
             d.update(yt, yp)
@@ -185,6 +188,11 @@ def jobs(tier):
         out.append(Job(f"update-b{burn}-s{sub}-r{rv}-ppv", "checks.c06:body_update",
                        {"N": 3 if q else 4, "burn": burn, "sub": sub, "round_val": rv, "tracked": ["ppv"]},
                        opts={"validate": 1}))
+    # cache: a rounded rate that is already cached recurs with a new denominator (2/3 -> 0.7 at denominator 3, 4/6 -> 0.7
+    # at denominator 6): the bounds must be simulated for the *exact* rate
+    out.append(Job("update-cache-rounded-rate-new-denominator", "checks.c06:body_update",
+                   {"N": 5, "burn": 0, "sub": 1, "round_val": 1, "tracked": ["ppv"], "prefix": [[1, 1], [1, 1], [1, 1]]},
+                   expect=("state-None",), opts={"validate": 1}))
     for denom in (1, 2, 3):
         out.append(Job(f"sim-bounds-denom{denom}", "checks.c06:body_sim_bounds", {"denom": denom}, expect=("checked",),
                        opts={"validate": 1}))
